@@ -7,7 +7,8 @@ Stores the seed under /verif/seeded/<Cxx>-<i>/ when confirmed."""
 import json, os, shutil, subprocess, sys, tempfile
 cid, i = sys.argv[1], sys.argv[2]
 extra = sys.argv[3:]
-out = f"/tmp/seeds/{cid}-out"
+rnd = os.environ.get("ROUND", "1")
+out = f"/tmp/seeds/{cid}-out" + ("" if rnd == "1" else rnd)
 patch = f"{out}/patch{i}.diff"; demo = f"{out}/demo{i}_test.go"; metaf = f"{out}/meta{i}.json"
 for f in (patch, demo, metaf):
     if not os.path.exists(f):
@@ -57,10 +58,10 @@ try:
     res["checks"] = caught
     res["caught_by"] = [c for c, v in caught.items() if v["exit"] == 1]
     if confirmed:
-        d = f"/verif/seeded/{cid}-{i}"
+        d = f"/verif/seeded/{cid}-{i}" if rnd == "1" else f"/verif/seeded/{cid}-r{rnd}-{i}"
         os.makedirs(d, exist_ok=True)
         shutil.copy(patch, d + "/patch.diff"); shutil.copy(demo, d + f"/demo_test.go.txt")
-        m = {"property": cid, "title": meta.get("title"), "needs": meta.get("needs"), "files": meta.get("files"), "demo_dir": demo_dir,
+        m = {"property": cid, "round": int(rnd), "title": meta.get("title"), "needs": meta.get("needs"), "files": meta.get("files"), "demo_dir": demo_dir,
              "source": "independent sub-agent given only the property text and a scratch worktree",
              "confirmed": {"suite_passes_with_patch": True, "demo_fails_with_patch": True, "demo_passes_without_patch": True},
              "what_i_ran": ["git worktree add <scratch> HEAD; git apply patch.diff", "run_baseline.sh <scratch> -> passed=155",
